@@ -11,6 +11,7 @@ import CarModel.Driver.Inspect
 import CarModel.Driver.RO
 import CarModel.Driver.Parse
 import CarModel.Driver.Trav
+import CarModel.Driver.Extract
 namespace Car.Driver
 
 structure DState where
@@ -67,6 +68,7 @@ def step (st : DState) (line : String) : DState × String × String :=
     else if fam == "parse" then let r := famParse H kv; (st, r.1, r.2)
     else if fam == "conc" then (st, "race=0 panic=0 deadlock=0 rt=1 final=1", "race=0 panic=0 deadlock=0 rt=1 final=1")
     else if fam == "trav" then let r := famTrav kv; (st, r.1, r.2)
+    else if fam == "extract" then let r := famExtract kv; (st, r.1, r.2)
     else if fam == "idx" then let r := famIdx kv; (st, r.1, r.2)
     else (st, "bad-op", "")
 
